@@ -28,3 +28,5 @@ def check(ctx):
     spsc.rule_replay_keeps(ctx, facts, "R6")
     spsc.rule_sender_drop(ctx, facts, "R6")
     spsc.rule_parked_visible_to_collector(ctx, facts, "R7")
+    from .. import provrules
+    provrules.rule_not_sampled_sentinel(ctx, facts, "R8")
